@@ -6,9 +6,11 @@ import (
 	"bytes"
 	"crypto/tls"
 	"fmt"
+	ht "html/template"
 	"io"
 	"net/textproto"
 	"strings"
+	tt "text/template"
 
 	mail "github.com/wneessen/go-mail"
 
@@ -22,7 +24,7 @@ type Part struct {
 	Enc     string `json:"enc,omitempty"`     // "", "qp", "b64", "8bit" ("" = message encoding)
 	Desc    string `json:"desc,omitempty"`    // WithPartContentDescription
 	Charset string `json:"charset,omitempty"` // WithPartCharset
-	Via     string `json:"via,omitempty"`     // "" = *Writer API, "string" = SetBodyString / AddAlternativeString
+	Via     string `json:"via,omitempty"`     // "" = *Writer API, "string" = SetBodyString / AddAlternativeString, "tpl" = SetBody*Template / AddAlternative*Template (text/template for text/plain, html/template for text/html; the template is "{{.}}" and the data is the content)
 	Deleted bool   `json:"deleted,omitempty"` // Part.Delete() is called after the part was added
 }
 
@@ -205,6 +207,20 @@ func Build(s Msg, h *Hooks) (*mail.Msg, error) {
 		}
 		w := wrap(fmt.Sprintf("part%d", i), p.Content)
 		switch {
+		case p.Via == "tpl" && ctOf(p.Type) == mail.TypeTextHTML:
+			tpl := ht.Must(ht.New("p").Parse("{{.}}"))
+			if i == 0 {
+				note(m.SetBodyHTMLTemplate(tpl, ht.HTML(p.Content), po...))
+			} else {
+				note(m.AddAlternativeHTMLTemplate(tpl, ht.HTML(p.Content), po...))
+			}
+		case p.Via == "tpl":
+			tpl := tt.Must(tt.New("p").Parse("{{.}}"))
+			if i == 0 {
+				note(m.SetBodyTextTemplate(tpl, string(p.Content), po...))
+			} else {
+				note(m.AddAlternativeTextTemplate(tpl, string(p.Content), po...))
+			}
 		case p.Via == "string" && i == 0:
 			m.SetBodyString(ctOf(p.Type), string(p.Content), po...)
 		case p.Via == "string":
@@ -254,6 +270,22 @@ func Build(s Msg, h *Hooks) (*mail.Msg, error) {
 				fo = append(fo, mail.WithFileContentType(mail.ContentType(f.CT)))
 			}
 			switch f.Source {
+			case "ttpl":
+				tpl := tt.Must(tt.New("f").Parse("{{.}}"))
+				if attach {
+					note(m.AttachTextTemplate(f.Name, tpl, string(f.Content), fo...))
+				} else {
+					note(m.EmbedTextTemplate(f.Name, tpl, string(f.Content), fo...))
+				}
+				continue
+			case "htpl":
+				tpl := ht.Must(ht.New("f").Parse("{{.}}"))
+				if attach {
+					note(m.AttachHTMLTemplate(f.Name, tpl, ht.HTML(f.Content), fo...))
+				} else {
+					note(m.EmbedHTMLTemplate(f.Name, tpl, ht.HTML(f.Content), fo...))
+				}
+				continue
 			case "buffer":
 				scratch.Reset()
 				scratch.Write(f.Content)
